@@ -216,19 +216,31 @@ def gen_specs(rng: random.Random, n, hints=None):
         cs = 1 << cb
         per_l2 = cs // (16 if ext else 8)
         ncl = rng.randint(1, 6) if cb >= 12 else rng.choice([1, 3, per_l2 - 1, per_l2, per_l2 + 2, 2 * per_l2 + 3, 3 * per_l2 + 5])
+        # extended L2 "stretch" family: host-contiguous clusters whose allocated sub-clusters form a prefix, so that runs continue across
+        # cluster boundaries and end inside a cluster (stale host bytes lie under the unallocated tail)
+        stretch = ext and rng.random() < 0.3
+        if stretch:
+            ncl = max(ncl, 3)
         size = ncl * cs - (rng.randint(0, cs - 1) if rng.random() < 0.3 else 0)
         slots = list(range(ncl))
-        rng.shuffle(slots)
+        if not stretch:
+            rng.shuffle(slots)
         clusters = []
         for g in range(ncl):
             r = rng.random()
             if ext:
+                if stretch:
+                    r = max(r, 0.5) if rng.random() < 0.8 else r
                 if r < 0.2:
                     clusters.append(None)
                 elif r < 0.3:
                     clusters.append("z")
                 elif r < 0.45:
                     clusters.append(["c", slots[g]])
+                elif stretch:
+                    m_ = rng.choice([SPC, SPC, 20, 28, 31, 12, 1])
+                    tail = rng.choice("uz")
+                    clusters.append(["x", slots[g], ["a"] * m_ + [tail] * (SPC - m_)])
                 else:
                     mode = rng.random()
                     subs = ["a"] * SPC if mode < 0.2 else [rng.choice("azu") for _ in range(SPC)] if mode < 0.6 else [("a" if (k // rng.choice([1, 3, 8])) % 2 else rng.choice("zu")) for k in range(SPC)]
